@@ -408,6 +408,8 @@ class Chain(Component):
       s.pp.in_ //= s.in_
       connect(s.pp.send, s.mc.recv)
       s.mco //= s.mc.out
+      # a block of one child ordered against a METHOD of another child
+      if pc: s.add_constraints( U(s.stage[0].get_update_block("up")) < M(s.mc.recv) )
     if tie is not None:
       # a stage whose input the parent ties to a constant
       s.tie = tie[0](k=tie[1]); s.tieo = OutPort(8)
@@ -424,6 +426,12 @@ class Outer(Component):
     else: s.lbo //= 0
     if tie is not None: s.tieo //= s.ch.tieo
     else: s.tieo //= 0
+    # the GRANDPARENT of the stages reads a port of a stage in a block of its own and constrains it
+    s.peek = OutPort(8)
+    @update
+    def up_peek(): s.peek @= s.ch.stage[0].out
+    s.add_constraints( WR(s.ch.stage[0].out) < U(up_peek) )
+    if pc: s.add_constraints( U(s.ch.stage[0].get_update_block("up")) < U(up_peek) )
 """
 
 
